@@ -15,12 +15,16 @@ RULE = ("all multisets of 1..N positive integer items from 1..B+3 (items larger 
         "(multiset, binsize, format); non-trivial = total >= B (something can be covered).")
 ASSUMPTIONS = ["positive integer items", "bounds as listed in evidence.coverage.bounds"]
 
+LONG = [((1, 2), 9, 24, 5), ((1, 2, 3), 9, 16, 7), ((2, 3, 5), 9, 14, 10), ((1, 4, 9), 9, 14, 8)]
 QUICK = [(6, 7), (10, 6), (12, 6)]
 THOROUGH = [(6, 9), (10, 8), (12, 7), (9, 8)]
 
 
 def bounds(tier):
-    return {"scopes": [f"values 1..{B + 3}, 1..{N} items, binsize {B}, formats list + dict(str names) (+dict(int names), names+valueof up to 5 items)"
+    return {"long-thin": "9..14(24) items over {1,2} B=5,15; {1,2,3} B=7,21; {2,3,5} B=10,30; {1,4,9} B=8,24; list + dict",
+            "big": "B in {2**32, 2**32+2, 3*2**31}, letters 1, 2, the integers next to B/3 and B/2, B, B+1; 1..5(6) items; list, dict(int names), array",
+            "planted-big": "B=12,13,9,101,99: every unordered pair of patterns x multiplicities (40,24)[,(100,20),(7,150)] plus floor(B/2) unit items",
+            "scopes": [f"values 1..{B + 3}, 1..{N} items, binsize {B}, formats list + dict(str names) (+dict(int names), names+valueof up to 5 items)"
                        for B, N in (QUICK if tier == "quick" else THOROUGH)]}
 
 
@@ -31,6 +35,25 @@ def tasks(tier):
             ts.append((f"B{B}", ch, B, ("list", "dict_str")))
         for ch in scopes.chunk_multisets(range(1, B + 4), 1, min(N, 5), 800):
             ts.append((f"B{B}-named", ch, B, ("dict_int", "names", "array")))
+    # many items over tiny alphabets, magnitudes around 2**32 with letters next to the class thresholds, large planted covers
+    for alpha, lo, hi, B in LONG:
+        for ch in scopes.chunk_multisets(alpha, lo, hi if tier != "quick" else min(hi, lo + 5), 200):
+            for Bx in (B, 3 * B):
+                ts.append((f"long-B{Bx}", ch, Bx, ("list", "dict_str")))
+    for Bc in (2 ** 32, 2 ** 32 + 2, 3 * 2 ** 31):
+        letters = (1, 2, Bc // 3, Bc // 3 + 1, Bc // 2 - 1, Bc // 2, Bc // 2 + 1, Bc, Bc + 1)
+        for ch in scopes.chunk_multisets(letters, 1, 5 if tier == "quick" else 6, 400):
+            ts.append(("big", ch, Bc, ("list", "dict_int", "array")))
+    from .c10 import PLANT_BIG
+    for Bb, lettersb in PLANT_BIG:
+        pats = spaces.partitions_of(Bb, lettersb, 4)
+        big = []
+        for i, pth in enumerate(pats):
+            for r in pats[i:]:
+                for a, b in (((40, 24),) if tier == "quick" else ((40, 24), (100, 20), (7, 150))):
+                    big.append(tuple(sorted(pth * a + r * b + (1,) * (Bb // 2), reverse=True)))   # plus a remainder smaller than a bin
+        for ch in spaces.chunked(big, 40):
+            ts.append(("planted-big", ch, Bb, ("list",)))
     return ts
 
 
